@@ -26,6 +26,8 @@ pub struct GenOpts {
     pub allow_primitive_enum: bool,
     /// more members per type and denser repeat blocks (C14)
     pub repeat_heavy: bool,
+    /// member-level repeat only (C06: a trait-level repeat() deliberately ties one counterpart's params to another's)
+    pub member_repeat_only: bool,
 }
 
 impl Default for GenOpts {
@@ -43,6 +45,7 @@ impl Default for GenOpts {
             enum_into_existing: false,
             allow_primitive_enum: true,
             repeat_heavy: false,
+            member_repeat_only: false,
         }
     }
 }
@@ -728,8 +731,10 @@ fn gen_struct(t: &mut Tape, o: &GenOpts, lab: &mut Labels) -> Item {
         t.shuffle(&mut type_instrs);
     }
 
-    if o.allow_repeat {
+    if o.allow_repeat || o.member_repeat_only {
         crate::gen_repeat::decorate_struct_repeats(t, &mut fields, o.repeat_heavy, lab);
+    }
+    if o.allow_repeat {
         crate::gen_repeat::decorate_trait_repeats(t, &mut type_instrs, lab);
     }
 
@@ -866,8 +871,10 @@ fn gen_enum(t: &mut Tape, o: &GenOpts, lab: &mut Labels) -> Item {
     if t.chance(1, 3) {
         t.shuffle(&mut type_instrs);
     }
-    if o.allow_repeat {
+    if o.allow_repeat || o.member_repeat_only {
         crate::gen_repeat::decorate_enum_repeats(t, &mut variants, o.repeat_heavy, lab);
+    }
+    if o.allow_repeat {
         crate::gen_repeat::decorate_trait_repeats(t, &mut type_instrs, lab);
     }
     let attrs = spell(t, o, type_instrs, lab);
